@@ -1,1 +1,15 @@
 import BddVerif.Props.C20
+#print axioms B.Props.C20.dotStmts_eq
+#print axioms B.Props.C20.dot_outcome
+#print axioms B.Props.C20.dot_frame
+#print axioms B.Props.C20.dot_vertices
+#print axioms B.Props.C20.dot_edges
+#print axioms B.Props.C20.node_edges_spec
+#print axioms B.Props.C20.dot_pruned
+#print axioms B.Props.C20.parse_render
+#print axioms B.Props.C20.parse_render_text
+#print axioms B.Props.C20.stmts_safe
+#print axioms B.Props.C20.dot_eval
+#print axioms B.Props.C20.dot_text_eval
+#print axioms B.Props.C20.dot_eval_by_index
+#print axioms B.Props.C20.dot_eval_den
